@@ -318,7 +318,16 @@ def simplify(expr: e.Expr) -> e.Expr:
 
     # create terms and try to find comaptible terms that may be
     # simplified by substituting indices
-    terms = expr.terms
+    # All terms that can be mapped onto each other are mapped onto the first
+    # of them. The order of the terms in the sympy expression depends on the
+    # names of the (generic) contracted indices and therefore on the
+    # derivations and index requests that preceded the current one.
+    # -> sort the terms by the form they take when the lowest available
+    #    contracted indices are used, which does not depend on the names.
+    terms = sorted(
+        expr.terms,
+        key=lambda t: str(t.substitute_contracted(return_sympy=True))
+    )
     equal_terms = find_compatible_terms(terms)
 
     # substitue the indices in other_n and keep n as is
